@@ -61,9 +61,12 @@ class Lexer:
 
             # Multi-line comment
             if ch == "/" and self._peek() == "*":
+                line, column = self.line, self.column
                 self._advance()  # /
                 self._advance()  # *
-                while self.pos < self.length:
+                while True:
+                    if self.pos >= self.length:
+                        raise JSSyntaxError("Unterminated comment", line, column)
                     if self._current() == "*" and self._peek() == "/":
                         self._advance()  # *
                         self._advance()  # /
@@ -435,7 +438,9 @@ class Lexer:
         pattern = []
         in_char_class = False
 
-        while self.pos < self.length:
+        while True:
+            if self.pos >= self.length:
+                raise JSSyntaxError("Unterminated regex literal", line, column)
             ch = self._current()
 
             if ch == "\\" and self.pos + 1 < self.length:
